@@ -108,9 +108,23 @@ class SymBool:
         return "<SymBool>"
 
 
+_SIMP = {}
+
+
+def _simplify(e):
+    i = e.get_id()
+    r = _SIMP.get(i)
+    if r is None or not r[0].eq(e):
+        r = (e, z3.simplify(e))
+        if len(_SIMP) > 200000:
+            _SIMP.clear()
+        _SIMP[i] = r
+    return r[1]
+
+
 def mkbool(e):
     """Return a python bool when the expression simplifies to a constant."""
-    s = z3.simplify(e)
+    s = _simplify(e)
     if z3.is_true(s):
         return True
     if z3.is_false(s):
@@ -152,13 +166,87 @@ def Iff(a, b):
 
 
 # --------------------------------------------------------------------------------------
+# Sign values: SymInts known to be in {-1, +1} are kept in a canonical form (a parity over a
+# *set* of boolean atoms), so that products cancel syntactically: (x*y)*y is the same term as x.
+# This is an exact representation, not an abstraction.
+# --------------------------------------------------------------------------------------
+_ATOMS = {}
+
+
+def _atom(b):
+    """canonical (neg, atom id) of a non-constant z3 Bool."""
+    neg = False
+    while z3.is_not(b):
+        b = b.arg(0)
+        neg = not neg
+    i = b.get_id()
+    _ATOMS[i] = b
+    return neg, i
+
+
+_SIGN_BOOL = {}
+
+
+def _sign_bool(sg):
+    """z3 Bool 'value == -1' of a sign descriptor (cached; canonical: atoms in id order)."""
+    r = _SIGN_BOOL.get(sg)
+    if r is not None:
+        return r
+    neg, atoms = sg
+    pos = _SIGN_BOOL.get((False, atoms))
+    if pos is None:
+        ids = sorted(atoms)
+        pos = _ATOMS[ids[0]]
+        for i in ids[1:]:
+            pos = z3.Xor(pos, _ATOMS[i])
+        _SIGN_BOOL[(False, atoms)] = pos
+    r = z3.Not(pos) if neg else pos
+    _SIGN_BOOL[sg] = r
+    return r
+
+
+def mksign(neg, atoms):
+    if not atoms:
+        return -1 if neg else 1
+    sg = (bool(neg), frozenset(atoms))
+    x = SymInt(z3.If(_sign_bool(sg), bv(-1), bv(1)), -1, 1)
+    x.sg = sg
+    return x
+
+
+def _sg_of(x):
+    """sign descriptor of an int in {-1,1} or a sign SymInt, else None."""
+    if isinstance(x, SymInt):
+        return x.sg
+    if isinstance(x, int) and not isinstance(x, bool):
+        if x == 1:
+            return (False, frozenset())
+        if x == -1:
+            return (True, frozenset())
+    return None
+
+
+def _sg_mul(a, b):
+    return (a[0] != b[0], a[1] ^ b[1])
+
+
+def _sg_is_neg_bool(sg):
+    """python bool / z3 Bool for 'value == -1'."""
+    if not sg[1]:
+        return sg[0]
+    return _sign_bool(sg)
+
+
+# --------------------------------------------------------------------------------------
 # SymInt
 # --------------------------------------------------------------------------------------
 class SymInt:
     """Bit-vector of ctx().width bits interpreted signed, with sound interval/known bits."""
-    __slots__ = ("e", "lo", "hi", "pm", "ko", "pinned")
+    __slots__ = ("e", "lo", "hi", "pm", "ko", "pinned", "sg", "ss")
 
     def __init__(self, e, lo, hi, pm=None, ko=0, pinned=False):
+        self.sg = None      # sign value: (neg, frozenset(atom ids)); value = -1 iff neg xor XOR(atoms)
+        self.ss = None      # sum of two sign values: (sg_a, sg_b)
         self.e = e
         self.lo = lo
         self.hi = hi
@@ -216,15 +304,23 @@ class SymInt:
             lo, hi = self.lo + o, self.hi + o
             if o > 0 and self.lo >= 0 and (self.pm & o) == 0:
                 return mk(self.e | bv(o), lo, hi, self.pm | o, self.ko | o)
-            return mk(self.e + bv(o), lo, hi)
+            r = mk(self.e + bv(o), lo, hi)
+            if self.sg is not None and o in (1, -1) and isinstance(r, SymInt):
+                r.ss = (self.sg, _sg_of(o))
+            return r
         lo, hi = self.lo + o.lo, self.hi + o.hi
         if self.lo >= 0 and o.lo >= 0 and (self.pm & o.pm) == 0:
             return mk(self.e | o.e, lo, hi, self.pm | o.pm, self.ko | o.ko)
-        return mk(self.e + o.e, lo, hi)
+        r = mk(self.e + o.e, lo, hi)
+        if self.sg is not None and o.sg is not None and isinstance(r, SymInt):
+            r.ss = (self.sg, o.sg)
+        return r
 
     __radd__ = __add__
 
     def __neg__(self):
+        if self.sg is not None:
+            return mksign(not self.sg[0], self.sg[1])
         return mk(-self.e, -self.hi, -self.lo)
 
     def __pos__(self):
@@ -274,7 +370,10 @@ class SymInt:
                 nb = max(c).bit_length() + 1
                 return mk(_narrow_apply(lambda a: a * z3.BitVecVal(o, a.size()), nb, self.e), min(c), max(c))
             return mk(self.e * bv(o), min(c), max(c))
-        # symbolic x symbolic: expand over the operand with the smaller interval
+        # symbolic x symbolic: sign values multiply canonically
+        if self.sg is not None and o.sg is not None:
+            return mksign(*_sg_mul(self.sg, o.sg))
+        # otherwise expand over the operand with the smaller interval
         a, b = self, o
         if (a.hi - a.lo) < (b.hi - b.lo):
             a, b = b, a
@@ -510,6 +609,10 @@ class SymInt:
         o = coerce(o)
         if o is None:
             return NotImplemented
+        if op in ("eq", "ne"):
+            r = self._cmp_sign(o)
+            if r is not None:
+                return r if op == "eq" else Not(r)
         if isinstance(o, int):
             olo = ohi = o
             oe = None
@@ -558,6 +661,37 @@ class SymInt:
         if op == "eq":
             return mkbool(self.e == oe)
         return mkbool(self.e != oe)
+
+    def _cmp_sign(self, o):
+        """canonical equality for sign values / sums of two sign values; None if n/a."""
+        if self.sg is not None:
+            osg = _sg_of(o)
+            if osg is not None:
+                d = _sg_mul(self.sg, osg)          # product == 1  <=>  equal
+                b = _sg_is_neg_bool(d)
+                return (not b) if isinstance(b, bool) else mkbool(z3.Not(b))
+            if isinstance(o, int):
+                return False
+        if self.ss is not None and isinstance(o, int):
+            a, b = self.ss
+            if o == 0:       # signs differ: Xor of the two sign bools (kept in terms of the operands)
+                ba, bb = _sg_is_neg_bool(a), _sg_is_neg_bool(b)
+                if isinstance(ba, bool) or isinstance(bb, bool):
+                    d = _sg_is_neg_bool(_sg_mul(a, b))
+                    return d if isinstance(d, bool) else mkbool(d)
+                if ba.get_id() > bb.get_id():
+                    ba, bb = bb, ba
+                return mkbool(z3.Xor(ba, bb))
+            if o in (2, -2):  # both equal to o/2
+                want_neg = o < 0
+                ba, bb = _sg_is_neg_bool(a), _sg_is_neg_bool(b)
+                ea = ba if isinstance(ba, bool) else SymBool(ba)
+                eb = bb if isinstance(bb, bool) else SymBool(bb)
+                if want_neg:
+                    return And(ea, eb)
+                return And(Not(ea), Not(eb))
+            return False
+        return None
 
     def __lt__(self, o):
         return self._cmp(o, "lt")
@@ -665,6 +799,17 @@ def ite(c, a, b):
     b = coerce(b)
     if isinstance(a, int) and isinstance(b, int) and a == b:
         return a
+    sa, sb = _sg_of(a), _sg_of(b)
+    if sa is not None and sb is not None:
+        ba, bb = _sg_is_neg_bool(sa), _sg_is_neg_bool(sb)
+        B = z3.simplify(z3.If(ce, ba if not isinstance(ba, bool) else z3.BoolVal(ba),
+                              bb if not isinstance(bb, bool) else z3.BoolVal(bb)))
+        if z3.is_true(B):
+            return -1
+        if z3.is_false(B):
+            return 1
+        neg, i = _atom(B)
+        return mksign(neg, {i})
     alo, ahi = (a, a) if isinstance(a, int) else (a.lo, a.hi)
     blo, bhi = (b, b) if isinstance(b, int) else (b.lo, b.hi)
     lo, hi = min(alo, blo), max(ahi, bhi)
@@ -740,6 +885,8 @@ class Context:
         self.fresh_id = 0
         self.path_decisions = 0
         self.extra_model_vars = {}
+        self.global_conds = []
+        self.logic = "QF_BV"
 
     # ---- inputs
     def _declare(self, name, var, kind, lo, hi):
@@ -766,6 +913,28 @@ class Context:
             self._assume_raw(v == bool(self.pins[name]))
         return SymBool(v)
 
+    def cut(self, x, stem="cut"):
+        """Cut point: a fresh variable v with the definition v == x added to the path condition;
+        the computation continues with v, so later terms stay shallow.  Exact (not an
+        abstraction): every query still carries the definition."""
+        if not isinstance(x, SymInt) or x.pinned:
+            return x
+        if x.sg is not None:
+            b = self.fresh_bool(stem)
+            self.assume(SymBool(b.e == _sign_bool(x.sg)))
+            neg, i = _atom(b.e)
+            return mksign(neg, {i})
+        v = self.fresh_int(stem, x.lo, x.hi)
+        if isinstance(v, int):
+            return v
+        v.pm, v.ko = x.pm, x.ko
+        fr = self.frames[-1]
+        e = v.e == x.e
+        fr.conds.append(e)
+        if fr.use_solver:
+            self.solver.add(e)
+        return v
+
     def fresh_int(self, stem, lo, hi):
         self.fresh_id += 1
         return self.int("%s#%d" % (stem, self.fresh_id), lo, hi)
@@ -778,6 +947,20 @@ class Context:
         fr = self.frames[0]
         fr.conds.append(e)
         self.solver.add(e)
+        self.global_conds.append(e)
+
+    def globally_infeasible(self, e):
+        """True if `e` contradicts the input validity predicates alone (independent of the path)."""
+        s = z3.SolverFor("QF_BV") if self.logic == "QF_BV" else z3.Solver()
+        s.set("timeout", 20000)
+        for g in self.global_conds:
+            s.add(g)
+        s.add(e)
+        self.stats.feas_queries += 1
+        t = time.time()
+        r = s.check()
+        self.stats.feas_time += time.time() - t
+        return r == z3.unsat
 
     def assume(self, b):
         """Constrain the current path (precondition).  Infeasible -> path aborted."""
@@ -804,7 +987,7 @@ class Context:
 
     # ---- decisions
     def _feasible(self, c, fr):
-        s = z3.simplify(c)
+        s = _simplify(c)
         if z3.is_false(s):
             return False
         if z3.is_true(s):
@@ -857,7 +1040,7 @@ class Context:
         return k
 
     def branch(self, e):
-        s = z3.simplify(e)
+        s = _simplify(e)
         if z3.is_true(s):
             return True
         if z3.is_false(s):
@@ -910,11 +1093,68 @@ class Context:
                 out[name] = str(v)
         return out
 
-    def prove(self, claim, label, info=None):
+    def _abstract_query(self, neg, abstract):
+        """Generalise the negated claim by replacing the given sub-terms with fresh variables
+        (constrained to the term's interval).  unsat of the generalisation implies unsat of the
+        original query; anything else is inconclusive and the precise query is run."""
+        subs, cons = [], []
+        for n, t in enumerate(abstract):
+            if isinstance(t, SymInt):
+                if t.sg is not None:
+                    subs.append((_sign_bool((False, t.sg[1])), z3.Bool("abs!b%d" % n)))
+                else:
+                    v = z3.BitVec("abs!i%d" % n, self.width)
+                    subs.append((t.e, v))
+                    cons.append(z3.And(v >= bv(t.lo), v <= bv(t.hi)))
+            elif isinstance(t, SymBool):
+                subs.append((t.e, z3.Bool("abs!b%d" % n)))
+        if not subs:
+            return None
+        g = z3.substitute(neg, *subs)
+        s = self._new_solver()
+        s.set("timeout", min(self.query_timeout_ms, 20000))
+        for cn in cons:
+            s.add(cn)
+        s.add(g)
+        t0 = time.time()
+        r = s.check()
+        self.stats.query_time += time.time() - t0
+        self.stats.abstract_queries = getattr(self.stats, "abstract_queries", 0) + 1
+        return str(r)
+
+    def prove_eq(self, x, y, label, abstract=None, info=None):
+        """prove x == y; with `abstract`, first try the generalised query built from the *raw*
+        (unsimplified) terms so that the given sub-terms really occur in it."""
+        if abstract and (isinstance(x, SymInt) or isinstance(y, SymInt)):
+            raw = iexpr(x) == iexpr(y)
+            r = self._abstract_query(z3.Not(raw), abstract)
+            if r == "unsat":
+                ob = self.stats.ob(label)
+                ob["paths"] += 1
+                ob["nontrivial"] += 1
+                ob["unsat"] += 1
+                ob["via_abstraction"] = ob.get("via_abstraction", 0) + 1
+                self.stats.queries += 1
+                self.stats.verdicts["unsat"] += 1
+                self._sample(label, "generalised (sub-terms replaced by fresh variables): " + _short(SymBool(raw)))
+                return True
+        return self.prove(x == y, label, info=info)
+
+    def prove(self, claim, label, info=None, abstract=None):
         """Obligation: on this path `claim` holds for every value of the inputs.
         unsat(path and not claim) -> discharged; sat -> counterexample recorded."""
         ob = self.stats.ob(label)
         ob["paths"] += 1
+        if abstract and not isinstance(claim, bool):
+            r = self._abstract_query(z3.Not(bexpr(claim)), abstract)
+            if r == "unsat":
+                ob["nontrivial"] += 1
+                ob["unsat"] += 1
+                ob["via_abstraction"] = ob.get("via_abstraction", 0) + 1
+                self.stats.queries += 1
+                self.stats.verdicts["unsat"] += 1
+                self._sample(label, claim)
+                return True
         if isinstance(claim, bool):
             if claim:
                 ob["trivial"] += 1
@@ -1028,6 +1268,8 @@ def explore(harness, params=None, width=DEFAULT_WIDTH, max_paths=200000, max_dec
             c.solver.set("timeout", query_timeout_ms)
             c.inputs = {}
             c.input_order = []
+            c.global_conds = []
+            c.logic = logic
             c.fresh_id = 0
             c.path_decisions = 0
             c.observed = {}
